@@ -19,7 +19,8 @@ describe(
     "(return code, status) cell of a finite abstraction (predicate ASTs are folded over abstract values; nothing is run); "
     "(3) each tally loop increments exactly one counter per result on every path of its body; (4) event consolidation "
     "reads every line of every event file with no conditional skip, sorts per name by timestamp, writes every non-resource "
-    "event, and runs only when the consolidated directory is empty.",
+    "event, and runs only when the consolidated directory is empty."
+    " The samples folded into the running statistics are the reading taken by this call (loop-nest provenance down to the _get_*stats() call).",
     ["producible (return code, status) cells: any return code x finished (AsyncCliCommand._complete) and non-zero x canceled (C04.1)"],
     "that each event appears 'exactly once with all fields intact' and the mean as a value are value-level and not decided; "
     "parquet output of resource statistics is not analysed.",
@@ -117,6 +118,41 @@ def c20_1(ctx, r):
                 pd = ctx.pdom(fn)
                 r.check(node.id in pd.get(cfg.entry.id, set()) and not cfg.in_loop(node), "sample count incremented exactly once per update", key_of(fn, "count"), fn.loc(a),
                         "self._count is not incremented exactly once per update_resource_stats call: the mean is wrong")
+    # the values folded in are this call's reading: the loop nest around every sum update bottoms out in a local bound
+    # by a _get_*stats() call of this invocation (not the reading kept from the previous call)
+    nsrc = 0
+    for node in cfg.nodes:
+        a = node.ast
+        if not (node.kind == "stmt" and isinstance(a, ast.AugAssign) and isinstance(a.op, ast.Add) and isinstance(a.value, ast.Name)):
+            continue
+        k = _subscript_key_path(a.target)
+        if not (k[1] and isinstance(k[1][0], ast.Constant) and k[1][0].value == "sum"):
+            continue
+        loops = ctx.enclosing(fn, a, (ast.For,))          # innermost first
+        name, src_ok, origin = a.value.id, False, None
+        for lp in loops:
+            tnames = {x.id for x in ast.walk(lp.target) if isinstance(x, ast.Name)}
+            if name in tnames:
+                e = lp.iter
+                while isinstance(e, (ast.Call, ast.Attribute, ast.Subscript)):
+                    e = e.func if isinstance(e, ast.Call) else e.value
+                if not isinstance(e, ast.Name):
+                    origin = ast.unparse(lp.iter)
+                    break
+                name, origin = e.id, ast.unparse(lp.iter)
+                if name == "self":
+                    break
+        else:
+            heads = [x for x in cfg.nodes if x.kind == "for" and loops and x.ast is loops[-1]]
+            ud = ctx.rd(fn).unique_def(heads[0], name) if heads and name != "self" else None
+            site = ctx.cg.site_of(fn, ud[1]) if ud and isinstance(ud[1], ast.Call) else None
+            src_ok = site is not None and any(site.calls_short(ctx.ix, f"ResourceMonitorAggregator.{m}") for m in ("_get_stats", "_get_process_stats"))
+        nsrc += 1
+        r.check(src_ok, f"{k[0]}: the samples folded in are read by this call", key_of(fn, f"{k[0]} sample source {origin}"), fn.loc(a),
+                f"the value added to {k[0]}['sum'] iterates `{origin}`, which is not a reading taken by this update_resource_stats() call: the previous interval's sample is aggregated again and the newest one never",
+                "report the true minimum, maximum and mean of the samples taken")
+    if nsrc < 2:
+        raise AnalysisError("C20.1", f"only {nsrc} sum updates recognised")
     # finalize divides each sum by the counter that is advanced together with that sum
     fin = ctx.ix.lookup_method(cls, "finalize")
     want = {"self._summaries": "self._count", "self._process_summaries": "self._process_sample_count[process_name]"}
@@ -392,3 +428,10 @@ def c20_5(ctx, r):
     r.check(ok, "a timestamp passed in is kept (consolidating again does not re-stamp)", key_of(init, "timestamp"), init.loc(), "StructuredLogEvent.__init__ no longer keeps a passed timestamp", "consolidating again does not change it")
     le = ctx.fn("loggers.log_event", "C20.5")
     r.check("logger.info(event)" in ast.unparse(le.node) and "_EVENT_LOGGER_NAME" in ast.unparse(le.node), "log_event writes one line per event to the event logger", key_of(le, "log_event"), le.loc(), "log_event changed")
+
+
+@rule(P, "C20.6", "T2", "one row per job after a resubmission: old rows of every rerun job (dependents included) are pruned before the tallies are rebuilt", min_obligations=2)
+def c20_6(ctx, r):
+    from .c13 import closure_before_consumers
+
+    closure_before_consumers(ctx, r, "C20.6")
